@@ -19,6 +19,11 @@ pub struct Entry {
     l: Layout,
     gen: OpFn,
     probe: OpFn,
+    /// entry of the second table: only the From / LossyFrom probes (kinds 12..15) are compiled for this layout
+    probe_only: bool,
+}
+fn no_gen(_: usize, _: usize, _: u128, _: u128) -> Out {
+    unreachable!("probe-only layout")
 }
 
 macro_rules! group {
@@ -27,7 +32,7 @@ macro_rules! group {
             use super::*;
             define_ops!();
             pub fn register(v: &mut Vec<Entry>) {
-                $( v.push(Entry { l: <$T as Lay>::LAYOUT, gen: gen::<$T>, probe: probes!($T) }); )*
+                $( v.push(Entry { l: <$T as Lay>::LAYOUT, gen: gen::<$T>, probe: probes!($T), probe_only: false }); )*
             }
         }
     };
@@ -44,6 +49,36 @@ macro_rules! table {
     };
 }
 crate::layout_group_names!(table);
+
+/// Second table (`prim` only; empty in `primx`, which compiles those layouts in full): for every layout outside the
+/// quick subset, the From / LossyFrom probes against all primitives. The existence of an infallible conversion is
+/// decided by type-level bounds per fractional-bit count, so it is probed at every count, also in the quick tier.
+mod ponly {
+    use super::*;
+    macro_rules! pgroup {
+        ($g:ident: [ $( ($T:ty, $B:ident, $w:expr, $f:expr, $s:ident) ),* ]) => {
+            pub mod $g {
+                use super::*;
+                pub fn register(v: &mut Vec<Entry>) {
+                    $( v.push(Entry { l: <$T as Lay>::LAYOUT, gen: no_gen, probe: crate::probes_only!($T), probe_only: true }); )*
+                }
+            }
+        };
+    }
+    crate::probe_layout_groups!(pgroup);
+    macro_rules! ptable {
+        ($($g:ident)*) => {
+            pub fn table() -> Vec<Entry> {
+                #[allow(unused_mut)]
+                let mut v: Vec<Entry> = vec![];
+                $( $g::register(&mut v); )*
+                v.sort_by_key(|e| (e.l.w, !e.l.signed, e.l.frac));
+                v
+            }
+        };
+    }
+    crate::probe_layout_group_names!(ptable);
+}
 
 fn call(e: &Entry, kind: usize, prim: usize, a: u128, b: u128) -> Out {
     subject(|| if (11..16).contains(&kind) { (e.probe)(kind, prim, a, b) } else { (e.gen)(kind, prim, a, b) }).unwrap_or(Out::Panic)
@@ -439,6 +474,8 @@ fn run_layout(e: &Entry, pd: &PrimDom, prop: Prop, tier: Tier) -> JobOut {
     let mut dig: Vec<Option<std::collections::hash_map::DefaultHasher>> = (0..nops).map(|_| None).collect();
     let mut returned = vec![];
     let c11 = prop == Prop::C11;
+    let ponly = e.probe_only;
+    let selects = |prop: Prop, kind: usize, prim: usize| selects(prop, kind, prim) && (!ponly || (12..16).contains(&kind));
     let mut visit = |rep: &mut Report, kind: usize, prim: usize, a: u128, b: u128| {
         let opi = kind * 16 + prim;
         // skip unspecified plain-form cases outside C11 without executing them
@@ -623,6 +660,10 @@ fn cmd_run(args: &Args) {
     let tab: Vec<Entry> = table().into_iter().filter(|e| only.as_ref().map_or(true, |o| *o == e.l.name() || *o == e.l.family())).collect();
     let pd = prim_domain(tier);
     let mut results = run_jobs(&tab, |e| run_layout(e, &pd, prop, tier));
+    // From / LossyFrom existence and value at every other fractional-bit count (second table, `prim` only)
+    let ptab: Vec<Entry> = if prop == Prop::C04 || prop == Prop::C05 { ponly::table().into_iter().filter(|e| only.as_ref().map_or(true, |o| *o == e.l.name() || *o == e.l.family())).collect() } else { vec![] };
+    results.extend(run_jobs(&ptab, |e| run_layout(e, &pd, prop, tier)));
+    let probe_only_layouts = ptab.len() as u64;
     // thorough tier, C05: every one of the 2^32 f32 bit patterns into a fixed list of layouts
     let mut swept = vec![];
     if prop == Prop::C05 && tier == Tier::Thorough && !args.has("no-exhaustive") {
@@ -642,7 +683,10 @@ fn cmd_run(args: &Args) {
         returned.extend(r.returned);
         rep.merge(r.rep);
     }
-    rep.layouts = tab.len() as u64;
+    rep.layouts = tab.len() as u64 + probe_only_layouts;
+    if probe_only_layouts > 0 {
+        rep.extra.insert("layouts_with_from_lossyfrom_probes_only".into(), probe_only_layouts);
+    }
     // samples
     for (i, (kind, prim)) in [(4usize, 13usize), (9, 14), (10, 13), (4, 3), (9, 10), (10, 6)].iter().enumerate() {
         if !selects(prop, *kind, *prim) {
@@ -702,7 +746,8 @@ fn exec_case(tab: &[Entry], p: &[&str]) -> (Layout, usize, usize, u128, u128, Ou
 }
 
 fn cmd_replay(a: &[String]) -> i32 {
-    let tab = table();
+    let mut tab = table();
+    tab.extend(ponly::table());
     let p: Vec<&str> = a.iter().map(|s| s.as_str()).collect();
     let (l, kind, prim, x, y, got) = exec_case(&tab, &p);
     println!("profile:  {}", vcore::profile_name());
